@@ -137,9 +137,113 @@ def direct(ck, tf):
     ck.notes.append(f"extreme-value steps checked directly: {n}")
 
 
+def direct_exceptions(ck, tf, pid="C11"):
+    """exceptions of every class raised by user code in the middle of a rewriting operation - StopIteration (an exhausted `next(...)` inside a
+    callable), KeyError, a bare Exception subclass - reach the caller and leave the contents as they were, on small databases and on one whose
+    file is larger than one I/O buffer; an exception leaving a `with TinyFlux(...) as db:` block reaches the caller too; afterwards an insert
+    appends to exactly the old contents"""
+    from tinyflux.storages import MemoryStorage
+    n = 0
+
+    class Custom(Exception):
+        pass
+    for csv in (False, True):
+        for auto in (True, False):
+            for size in (5, 260):
+                for exc in (StopIteration, KeyError, Custom):
+                    for where in ("middle", "last"):
+                        for kind in ("update_all fields callable", "update tags callable", "remove query test", "update_all time callable"):
+                            if size == 260 and (kind != "update_all fields callable" and exc is not StopIteration):
+                                continue
+                            d = tempfile.mkdtemp(dir=str(ck.work))
+                            db = tf.TinyFlux(os.path.join(d, "db.csv"), auto_index=auto) if csv else tf.TinyFlux(storage=MemoryStorage, auto_index=auto)
+                            try:
+                                db.insert_multiple([tf.Point(time=T0 + timedelta(seconds=i), measurement="m", tags={"k": str(i), "pad": "x" * 20}, fields={"a": float(i)})
+                                                    for i in range(size)])
+                                before = snapshot(db)
+                                at = size // 2 if where == "middle" else size
+                                c = [0]
+
+                                def boom(x, _c=c, _at=at, _exc=exc):
+                                    _c[0] += 1
+                                    if _c[0] >= _at:
+                                        raise _exc("from user code")
+                                    return {"z": 1} if kind.startswith("update_all fields") else ({"z": "1"} if "tags" in kind else (x if "time" in kind else False))
+                                raised = None
+                                try:
+                                    if kind == "update_all fields callable":
+                                        db.update_all(fields=boom)
+                                    elif kind == "update tags callable":
+                                        db.update(tf.FieldQuery().a >= 0, tags=boom)
+                                    elif kind == "update_all time callable":
+                                        db.update_all(time=boom)
+                                    else:
+                                        db.remove(tf.FieldQuery().a.test(boom))
+                                except BaseException as e:  # noqa
+                                    raised = type(e).__name__
+                                n += 1
+                                # half of the cases: the insert comes FIRST after the failed call, before any read has touched storage again
+                                insert_first = (n % 2 == 0)
+                                after = before if insert_first else snapshot(db)
+                                why = None
+                                if raised is None:
+                                    why = f"{exc.__name__} raised by user code inside {kind} (at point {at} of {size}) did not reach the caller"
+                                elif after != before:
+                                    why = f"{kind} raised {raised} but changed the stored contents ({len(before)} -> {len(after)} points)"
+                                else:
+                                    db.insert(tf.Point(time=T0 + timedelta(seconds=size + 5), measurement="m", tags={"k": "new"}, fields={"a": -1.0}))
+                                    try:
+                                        again = snapshot(db)
+                                    except Exception as e:  # noqa
+                                        again = None
+                                        why = f"after {kind} raised {raised} and an insert, the contents cannot be read any more ({type(e).__name__}: {e})"[:300]
+                                    if again is None:
+                                        pass
+                                    elif again[:len(before)] != before or len(again) != len(before) + 1:
+                                        why = f"after {kind} raised {raised}, an insert did not append to the old contents ({len(before)} -> {len(again)} points)"
+                                    else:
+                                        cc = consistent(tf, db)
+                                        if cc:
+                                            why = f"after {kind} raised {raised} and an insert, " + cc
+                                        elif csv:
+                                            db.close()
+                                            db2 = tf.TinyFlux(os.path.join(d, "db.csv"))
+                                            try:
+                                                if snapshot(db2) != again:
+                                                    why = f"after {kind} raised {raised} and an insert, the reopened file holds other contents"
+                                            finally:
+                                                db2.close()
+                                if why:
+                                    ck.violation({"kind": "failing-input", "property": pid, "config": {"csv": csv, "auto_index": auto}, "database_size": size,
+                                                  "operation": kind, "exception_class": exc.__name__, "raised_at_point": at, "why": why})
+                                    return n
+                            finally:
+                                try:
+                                    db.close()
+                                except Exception:  # noqa
+                                    pass
+            # an exception leaving a `with` block
+            d = tempfile.mkdtemp(dir=str(ck.work))
+            reached = None
+            try:
+                with (tf.TinyFlux(os.path.join(d, "db.csv"), auto_index=auto) if csv else tf.TinyFlux(storage=MemoryStorage, auto_index=auto)) as db:
+                    db.insert(tf.Point(time=T0, fields={"a": 1.0}))
+                    db.insert("not a point")
+                reached = False
+            except Exception as e:  # noqa
+                reached = True
+            n += 1
+            if not reached:
+                ck.violation({"kind": "failing-input", "property": pid, "config": {"csv": csv, "auto_index": auto},
+                              "why": "insert(<not a Point>) raised inside a `with TinyFlux(...) as db:` block, but no exception left the block"})
+                return n
+    ck.notes.append(f"user-code exceptions inside rewriting operations checked directly: {n}")
+    return n
+
+
 def main(tier, seed):
     return dbtie.db_check("C11", tier, seed, PROFILE, 800, 6000, "Prop_C11",
                           "user callables and re are an environment the theorems quantify over; the tie instantiates them with the twin table",
-                          direct=direct, extra_cov={"extreme_values": "points at datetime.max / near datetime.min, field values +-10**400, nan, the largest float, "
+                          direct=lambda ck, tf: (direct(ck, tf), direct_exceptions(ck, tf)), extra_cov={"extreme_values": "points at datetime.max / near datetime.min, field values +-10**400, nan, the largest float, "
                                                     "a 70000-character tag value, empty keys, updates to such values (static and from a callable failing on later points): "
                                                     "a call that raises leaves the contents as they were; afterwards len / count / getters agree with the contents; x {memory,csv} x {auto_index}"})
